@@ -46,7 +46,7 @@ Start(t) == /\ tid = 0
             /\ tid' = t /\ pos' = 0 /\ todo' = all[t].steps /\ all' = <<>>
             /\ refs' = RefsOf(all[t].refs) /\ rep' = all[t].rep /\ mig' = all[t].mig
             /\ src' = SrcOf(all[t].src0) /\ isrc' = SrcOf(all[t].src0)
-            /\ gok' = [v |-> FALSE, wd |-> {}, src |-> SrcOf(all[t].src0)]
+            /\ gok' = [v |-> FALSE, wd |-> {}, src |-> SrcOf(all[t].src0), ni |-> 1]
             /\ UNCHANGED <<niter, wd, wdlink, inputs, pc, plan, idx, miss, res, staged, launch, tick, nmut, nwr, nrs, nag, nev, restarted,
                            own, bsame, bwd, wtop, clean, dev, hist>>
 
@@ -71,7 +71,7 @@ TraceEmit == tid # 0 => PrintT(ToJson([tid |-> tid, pos |-> pos, dev |-> dev]))
 (* the action properties of DataStaging over all variables: evaluated on the logged real states *)
 TStagingLeavesSources == [][(tid # 0 /\ pc = "staging") => src' = src]_allvars
 TSourceChangeInvisible == [][nmut' # nmut => wd' = wd]_allvars
-TRefStagesNothing == [][(pc = "staging" /\ idx <= Len(plan) /\ plan[idx].op = "ref" /\ refs[plan[idx].r].m = "ref") => wd' = wd]_allvars
+TRefStagesNothing == [][(pc = "staging" /\ idx <= Len(plan) /\ plan[idx].op = "ref" /\ refs[plan[idx].r].m \in {"ref", "loopref", "loopoutput"}) => wd' = wd]_allvars
 TUpdChangesNoFile == [][(pc = "staging" /\ idx <= Len(plan) /\ plan[idx].op = "upd") => wd' = wd]_allvars
 TRestartKeeps == [][(nrs' # nrs /\ pc' = "idle") => (wd' = wd /\ src' = src /\ launch' = "yes" /\ staged')]_allvars
 TOwnOutputsSurvive == [][pc = "staging" => \A e \in wd : e.p \in own => e \in wd']_allvars
